@@ -1,8 +1,16 @@
 /-
 Source-level tie for bellows/ash.py: the definitions generated from the *syntax tree* of the
-repository under test (BV/Gen/SrcAsh.lean, by harness/pytrans.py) are proved equal to the
-hand-written models that every C02/C03/C04 theorem is about.  A change to the source
+repository under test (BV/Gen/SrcAsh.lean, written by harness/pytrans.py on every run) are proved
+equal to the hand-written models that the C02/C03/C04 theorems are about.  A change to the source
 regenerates SrcAsh.lean; these theorems are then re-checked against what the code says now.
+
+  generate_random_sequence(256)  = the generated table          (kernel evaluation)
+  _stuff_bytes / _unstuff_bytes  = Ash.stuff / Ash.unstuff      (induction over the byte string)
+  AshFrame._unwrap / append_crc  = Ash.unwrap / Ash.appendCrc
+  <Class>.to_bytes               = Ash.encode on well-formed frames
+  parse_frame                    = Ash.parse on every byte string
+
+`binascii.crc_hqx` is the bitwise CRC of BV.Model.Ash.Crc on both sides (BV/Py/AshEnv.lean).
 -/
 import BV.Gen.SrcAsh
 import BV.Model.Ash.Frame
@@ -10,14 +18,423 @@ namespace BV.Proofs.Src.Ash
 open BV.Py BV.Gen.Ash
 open BV.Src.Ash (Frame FrameCls)
 
-/-! ### constants -/
-
 theorem reserved_bytes_eq : BV.Src.Ash.C_RESERVED_BYTES = reservedBytes.map UInt8.toNat := by decide
-
-theorem prs_eq : BV.Src.Ash.C_PSEUDO_RANDOM_DATA_SEQUENCE = pseudoRandom := by decide +kernel
 
 /-- the table used by the code is what `generate_random_sequence(256)` in the source computes -/
 theorem generate_random_sequence_256 :
     BV.Src.Ash.generate_random_sequence 256 = .ok pseudoRandom := by decide +kernel
+
+theorem forall_u8 (p : UInt8 → Prop) (h : ∀ i : Fin 256, p (UInt8.ofNat i.val)) : ∀ b, p b := by
+  intro b
+  have := h ⟨b.toNat, b.toNat_lt⟩
+  simpa using this
+
+theorem t1 : ∀ b : UInt8, BV.Src.Ash.C_RESERVED_BYTES.contains b.toNat = BV.Ash.isReserved b := by
+  apply forall_u8; decide +kernel
+theorem t2 : ∀ b : UInt8, bytesOf [125, b.toNat ^^^ 32] = .ok [resEscape, b ^^^ 0x20] := by
+  apply forall_u8; decide +kernel
+theorem t3 : ∀ b : UInt8, bytesOf [b.toNat] = .ok [b] := by
+  apply forall_u8; decide +kernel
+
+theorem stuff_body (b : UInt8) (out : List UInt8) :
+    BV.Src.Ash.stuff_bytes.loop1 out b.toNat =
+      .ok (.next (out ++ (if BV.Ash.isReserved b then [resEscape, b ^^^ 0x20] else [b]))) := by
+  simp only [BV.Src.Ash.stuff_bytes.loop1, t1, t2, t3]
+  cases h : BV.Ash.isReserved b <;> simp [bind, Except.bind, pure, Except.pure]
+
+theorem stuff_loop (bs : List UInt8) (out : List UInt8) :
+    forE BV.Src.Ash.stuff_bytes.loop1 (ints bs) out = .ok (.done (out ++ BV.Ash.stuff bs) false) := by
+  induction bs generalizing out with
+  | nil => simp [ints, forE, BV.Ash.stuff]
+  | cons b bs ih =>
+    have := ih
+    simp only [ints, List.map_cons] at this ⊢
+    simp only [forE, stuff_body, this, BV.Ash.stuff]
+    split <;> simp
+
+theorem stuff_eq (bs : List UInt8) : BV.Src.Ash.stuff_bytes bs = .ok (BV.Ash.stuff bs) := by
+  simp [BV.Src.Ash.stuff_bytes, stuff_loop, LoopRes.noRet, bind, Except.bind, pure, Except.pure]
+
+theorem t4 : ∀ b : UInt8, BV.Src.Ash.C_RESERVED_BYTES.contains (b.toNat ^^^ 32) = BV.Ash.isReserved (b ^^^ 0x20) := by
+  apply forall_u8; decide +kernel
+theorem t5 : ∀ b : UInt8, bytesOf [b.toNat ^^^ 32] = .ok [b ^^^ 0x20] := by
+  apply forall_u8; decide +kernel
+theorem t6 : ∀ b : UInt8, decide (b.toNat = 125) = (b == resEscape) := by
+  apply forall_u8; decide +kernel
+
+def unstuffRes (out : List UInt8) : Option (List UInt8) → Except PyErr (List UInt8)
+  | some r => .ok (out ++ r)
+  | none => .error (.raised "ParsingError")
+
+theorem unstuff_body (b : UInt8) (out : List UInt8) (esc : Bool) :
+    BV.Src.Ash.unstuff_bytes.loop1 (out, esc) b.toNat =
+      if esc then
+        (if BV.Ash.isReserved (b ^^^ 0x20) then .ok (.next (out ++ [b ^^^ 0x20], false)) else .error (.raised "ParsingError"))
+      else if b == resEscape then .ok (.next (out, true)) else .ok (.next (out ++ [b], false)) := by
+  simp only [BV.Src.Ash.unstuff_bytes.loop1, t3, t4, t5, t6]
+  cases esc <;> cases h : BV.Ash.isReserved (b ^^^ 0x20) <;> cases h2 : (b == resEscape) <;>
+    simp [bind, Except.bind, pure, Except.pure, throw, throwThe, MonadExceptOf.throw]
+
+theorem unstuff_loop (bs : List UInt8) (out : List UInt8) (esc : Bool) :
+    (forE BV.Src.Ash.unstuff_bytes.loop1 (ints bs) (out, esc)).map (fun r => (LoopRes.noRet r).1.1) =
+      unstuffRes out (BV.Ash.unstuffAux esc bs) := by
+  induction bs generalizing out esc with
+  | nil => cases esc <;> simp [ints, forE, BV.Ash.unstuffAux, unstuffRes, LoopRes.noRet, Except.map]
+  | cons b bs ih =>
+    have ih' := ih
+    simp only [ints, List.map_cons] at ih' ⊢
+    simp only [forE, unstuff_body]
+    cases esc
+    · cases h2 : (b == resEscape)
+      · simp only [BV.Ash.unstuffAux, h2]
+        have := ih' (out ++ [b]) false
+        simp at this ⊢
+        rw [this]
+        cases BV.Ash.unstuffAux false bs <;> simp [unstuffRes]
+      · simp only [BV.Ash.unstuffAux, h2]
+        simpa using ih' out true
+    · cases h : BV.Ash.isReserved (b ^^^ 0x20)
+      · simp [BV.Ash.unstuffAux, h, unstuffRes, Except.map]
+      · simp only [BV.Ash.unstuffAux, h]
+        have := ih' (out ++ [b ^^^ 0x20]) false
+        simp at this ⊢
+        rw [this]
+        cases BV.Ash.unstuffAux false bs <;> simp [unstuffRes]
+
+theorem unstuff_eq (bs : List UInt8) :
+    BV.Src.Ash.unstuff_bytes bs = unstuffRes [] (BV.Ash.unstuff bs) := by
+  have := unstuff_loop bs [] false
+  simp only [BV.Src.Ash.unstuff_bytes, BV.Ash.unstuff]
+  rw [← this]
+  cases forE BV.Src.Ash.unstuff_bytes.loop1 (ints bs) ([], false) <;>
+    simp [bind, Except.bind, pure, Except.pure, Except.map, LoopRes.noRet]
+
+theorem crcHqx_eq (bs : List UInt8) : crcHqx bs 65535 = (BV.Ash.crc bs).toNat := rfl
+
+theorem crc_bytes (bs : List UInt8) : toBytes2Big (crcHqx bs 65535) = .ok (BV.Ash.crcBytes (BV.Ash.crc bs)) := by
+  have h : (BV.Ash.crc bs).toNat < 65536 := (BV.Ash.crc bs).isLt
+  rw [crcHqx_eq]
+  simp [toBytes2Big, h, BV.Ash.crcBytes]
+
+theorem append_crc_eq (bs : List UInt8) : BV.Src.Ash.AshFrame.append_crc bs = .ok (BV.Ash.appendCrc bs) := by
+  simp [BV.Src.Ash.AshFrame.append_crc, crc_bytes, BV.Ash.appendCrc, bind, Except.bind, pure, Except.pure]
+
+def unwrapRes : Except BV.Ash.PErr (UInt8 × List UInt8) → Except PyErr (Nat × List UInt8)
+  | .ok (c, rest) => .ok (c.toNat, rest)
+  | .error _ => .error (.raised "ParsingError")
+
+theorem unwrap_eq (d : List UInt8) : BV.Src.Ash.AshFrame.unwrap d = unwrapRes (BV.Ash.unwrap d) := by
+  simp only [BV.Src.Ash.AshFrame.unwrap, BV.Ash.unwrap, crc_bytes, sliceToNeg, sliceFromNeg, sliceMid]
+  by_cases h3 : d.length < 3
+  · simp [h3, unwrapRes, throw, throwThe, MonadExceptOf.throw]
+  · simp only [h3, decide_false, Bool.false_eq_true, ↓reduceIte]
+    by_cases hc : BV.Ash.crcBytes (BV.Ash.crc (List.take (d.length - 2) d)) = List.drop (d.length - 2) d
+    · cases d with
+      | nil => simp at h3
+      | cons c d' =>
+        have hl : 2 ≤ d'.length := by simp at h3; omega
+        have ht : List.take ((c :: d').length - 2) (c :: d') = c :: List.take (d'.length - 2) d' := by
+          have : (c :: d').length - 2 = (d'.length - 2) + 1 := by simp; omega
+          rw [this, List.take_succ_cons]
+        rw [ht] at hc ⊢
+        simp [hc, bind, Except.bind, pure, Except.pure, unwrapRes, byteAt]
+    · simp [hc, bind, Except.bind, unwrapRes, throw, throwThe, MonadExceptOf.throw]
+
+theorem prs_eq : BV.Src.Ash.C_PSEUDO_RANDOM_DATA_SEQUENCE = pseudoRandom := by decide +kernel
+
+theorem bytesOf_toNat (bs : List UInt8) : bytesOf (bs.map UInt8.toNat) = .ok bs := by
+  have h : (bs.map UInt8.toNat).all (· < 256) = true := by
+    simp only [List.all_map, List.all_eq_true]
+    intro x _
+    simpa using x.toNat_lt
+  simp only [bytesOf, h, ↓reduceIte, List.map_map]
+  congr 1
+  conv => rhs; rw [← List.map_id bs]
+  apply List.map_congr_left
+  intro x _
+  simp
+
+theorem zip_xor (a b : List UInt8) :
+    zipWithL (fun x y => x ^^^ y) (ints a) (ints b) = (BV.Ash.xorSeq a b).map UInt8.toNat := by
+  induction a generalizing b with
+  | nil => simp [ints, zipWithL, BV.Ash.xorSeq]
+  | cons x xs ih =>
+    cases b with
+    | nil => simp [ints, zipWithL, BV.Ash.xorSeq]
+    | cons y ys =>
+      have := ih ys
+      simp only [ints] at this ⊢
+      simp [zipWithL, BV.Ash.xorSeq, this, UInt8.toNat_xor]
+
+theorem randomize_eq (d : List UInt8) :
+    BV.Src.Ash.DataFrame.randomize d =
+      if d.length ≤ pseudoRandom.length then .ok (BV.Ash.randomize d) else .error (.raised "AssertionError") := by
+  simp only [BV.Src.Ash.DataFrame.randomize, prs_eq, zip_xor, bytesOf_toNat, BV.Ash.randomize]
+  by_cases h : d.length ≤ pseudoRandom.length <;>
+    simp [h, bind, Except.bind, pure, Except.pure, throw, throwThe, MonadExceptOf.throw]
+
+/-- generated dataclass value -> model frame -/
+def toM : Frame → BV.Ash.Frame
+  | .DataFrame f r a p => .data f (r != 0) a p
+  | .AckFrame res n a => .ack (res != 0) (n != 0) a
+  | .NakFrame res n a => .nak (res != 0) (n != 0) a
+  | .RstFrame => .rst
+  | .RStackFrame v c => .rstack (UInt8.ofNat v) (UInt8.ofNat c)
+  | .ErrorFrame v c => .error (UInt8.ofNat v) (UInt8.ofNat c)
+
+/-- model frame -> the dataclass value the code holds for it (bools are the ints 0 / 1) -/
+def ofM : BV.Ash.Frame → Frame
+  | .data f r a p => .DataFrame f (b2n r) a p
+  | .ack res n a => .AckFrame (b2n res) (b2n n) a
+  | .nak res n a => .NakFrame (b2n res) (b2n n) a
+  | .rst => .RstFrame
+  | .rstack v c => .RStackFrame v.toNat c.toNat
+  | .error v c => .ErrorFrame v.toNat c.toNat
+
+theorem toM_ofM (f : BV.Ash.Frame) : toM (ofM f) = f := by
+  cases f <;> simp [toM, ofM, b2n] <;> (try constructor) <;> (try split) <;> simp_all
+
+theorem ctl_data : ∀ f : Fin 8, ∀ r : Bool, ∀ a : Fin 8,
+    bytesOf [(((0 ||| (f.val <<< 4)) ||| (b2n r <<< 3)) ||| (a.val <<< 0))] = .ok [BV.Ash.ctlData f.val r a.val] := by
+  decide +kernel
+theorem ctl_ack : ∀ f : Bool, ∀ r : Bool, ∀ a : Fin 8,
+    bytesOf [(((128 ||| (b2n f <<< 4)) ||| (b2n r <<< 3)) ||| (a.val <<< 0))] = .ok [BV.Ash.ctlAck f r a.val] := by
+  decide +kernel
+theorem ctl_nak : ∀ f : Bool, ∀ r : Bool, ∀ a : Fin 8,
+    bytesOf [(((160 ||| (b2n f <<< 4)) ||| (b2n r <<< 3)) ||| (a.val <<< 0))] = .ok [BV.Ash.ctlNak f r a.val] := by
+  decide +kernel
+theorem rstack_bytes : ∀ k : Nat, ∀ c : UInt8, bytesOf [k, 2, c.toNat] = if k < 256 then .ok [UInt8.ofNat k, 2, c] else .error (.raised "ValueError") := by
+  intro k c
+  have := c.toNat_lt
+  by_cases hk : k < 256 <;> simp [bytesOf, hk] <;> omega
+
+/-- **every well-formed frame is written exactly as the model's `encode` says** (`frame.to_bytes()` of the source) -/
+theorem to_bytes_eq (f : BV.Ash.Frame) (hw : f.WF) : Frame.to_bytes (ofM f) = .ok (BV.Ash.encode f) := by
+  cases f with
+  | data f r a p =>
+    obtain ⟨hf, ha, hp⟩ := hw
+    have := ctl_data ⟨f, hf⟩ r ⟨a, ha⟩
+    simp only [Nat.zero_or, Nat.shiftLeft_zero] at this
+    simp [Frame.to_bytes, ofM, BV.Src.Ash.DataFrame.to_bytes, this, randomize_eq, hp, append_crc_eq, BV.Ash.encode,
+      bind, Except.bind]
+  | ack res n a =>
+    have := ctl_ack res n ⟨a, hw⟩
+    simp only [Nat.zero_or, Nat.shiftLeft_zero] at this
+    simp [Frame.to_bytes, ofM, BV.Src.Ash.AckFrame.to_bytes, this, append_crc_eq, BV.Ash.encode, bind, Except.bind]
+  | nak res n a =>
+    have := ctl_nak res n ⟨a, hw⟩
+    simp only [Nat.zero_or, Nat.shiftLeft_zero] at this
+    simp [Frame.to_bytes, ofM, BV.Src.Ash.NakFrame.to_bytes, this, append_crc_eq, BV.Ash.encode, bind, Except.bind]
+  | rst =>
+    have : bytesOf [192] = .ok [rstMaskValue] := by decide
+    simp [Frame.to_bytes, ofM, BV.Src.Ash.RstFrame.to_bytes, this, append_crc_eq, BV.Ash.encode, bind, Except.bind]
+  | rstack v c =>
+    have hv : v = 2 := hw
+    subst hv
+    have := rstack_bytes 193 c
+    simp at this
+    simp [Frame.to_bytes, ofM, BV.Src.Ash.RStackFrame.to_bytes, this, append_crc_eq, BV.Ash.encode, bind, Except.bind,
+      rstackMaskValue]
+  | error v c =>
+    have hv : v = 2 := hw
+    subst hv
+    have := rstack_bytes 194 c
+    simp at this
+    simp [Frame.to_bytes, ofM, BV.Src.Ash.ErrorFrame.to_bytes, this, append_crc_eq, BV.Ash.encode, bind, Except.bind,
+      errorMaskValue]
+
+/-! ### parse_frame -/
+
+theorem masks : ∀ c : UInt8,
+    ((c.toNat &&& 128 = 0) ↔ (c &&& dataMask == dataMaskValue) = true) ∧
+    ((c.toNat &&& 224 = 128) ↔ (c &&& ackMask == ackMaskValue) = true) ∧
+    ((c.toNat &&& 224 = 160) ↔ (c &&& nakMask == nakMaskValue) = true) ∧
+    ((c.toNat &&& 255 = 192) ↔ (c &&& rstMask == rstMaskValue) = true) ∧
+    ((c.toNat &&& 255 = 193) ↔ (c &&& rstackMask == rstackMaskValue) = true) ∧
+    ((c.toNat &&& 255 = 194) ↔ (c &&& errorMask == errorMaskValue) = true) := by
+  apply forall_u8; decide +kernel
+
+theorem bits : ∀ c : UInt8,
+    (c.toNat &&& 112) >>> 4 = BV.Ash.bit c 0x70 4 ∧ (c.toNat &&& 8) >>> 3 = BV.Ash.bit c 0x08 3 ∧
+    (c.toNat &&& 7) >>> 0 = BV.Ash.bit c 0x07 0 ∧ (c.toNat &&& 16) >>> 4 = BV.Ash.bit c 0x10 4 := by
+  apply forall_u8; decide +kernel
+
+/-- what `parse_frame` of the source yields, read as a model frame -/
+def parsed (d : List UInt8) : Option BV.Ash.Frame := (BV.Src.Ash.parse_frame d).toOption.map toM
+
+theorem from_bytes_data (d : List UInt8) :
+    (BV.Src.Ash.DataFrame.from_bytes d).toOption.map toM =
+      match BV.Ash.unwrap d with
+      | .error _ => none
+      | .ok (c, rest) => if rest.length > pseudoRandom.length then none
+          else some (.data (BV.Ash.bit c 0x70 4) (BV.Ash.bit c 0x08 3 != 0) (BV.Ash.bit c 0x07 0) (BV.Ash.randomize rest)) := by
+  simp only [BV.Src.Ash.DataFrame.from_bytes, unwrap_eq, randomize_eq]
+  cases BV.Ash.unwrap d with
+  | error e => simp [unwrapRes, bind, Except.bind, Except.toOption]
+  | ok p =>
+    obtain ⟨c, rest⟩ := p
+    obtain ⟨b1, b2, b3, -⟩ := bits c
+    by_cases h : rest.length ≤ pseudoRandom.length
+    · have h' : ¬ rest.length > pseudoRandom.length := by omega
+      simp [unwrapRes, bind, Except.bind, Except.toOption, h, h', toM, b1, b2, b3, pure, Except.pure]
+    · have h' : rest.length > pseudoRandom.length := by omega
+      simp [unwrapRes, bind, Except.bind, Except.toOption, h, h']
+
+theorem from_bytes_ack (d : List UInt8) :
+    (BV.Src.Ash.AckFrame.from_bytes d).toOption.map toM =
+      match BV.Ash.unwrap d with
+      | .error _ => none
+      | .ok (c, _) => some (.ack (BV.Ash.bit c 0x10 4 != 0) (BV.Ash.bit c 0x08 3 != 0) (BV.Ash.bit c 0x07 0)) := by
+  simp only [BV.Src.Ash.AckFrame.from_bytes, unwrap_eq]
+  cases BV.Ash.unwrap d with
+  | error e => simp [unwrapRes, bind, Except.bind, Except.toOption]
+  | ok p =>
+    obtain ⟨c, rest⟩ := p
+    obtain ⟨-, b2, b3, b4⟩ := bits c
+    simp [unwrapRes, bind, Except.bind, Except.toOption, toM, b2, b3, b4, pure, Except.pure]
+
+theorem from_bytes_nak (d : List UInt8) :
+    (BV.Src.Ash.NakFrame.from_bytes d).toOption.map toM =
+      match BV.Ash.unwrap d with
+      | .error _ => none
+      | .ok (c, _) => some (.nak (BV.Ash.bit c 0x10 4 != 0) (BV.Ash.bit c 0x08 3 != 0) (BV.Ash.bit c 0x07 0)) := by
+  simp only [BV.Src.Ash.NakFrame.from_bytes, unwrap_eq]
+  cases BV.Ash.unwrap d with
+  | error e => simp [unwrapRes, bind, Except.bind, Except.toOption]
+  | ok p =>
+    obtain ⟨c, rest⟩ := p
+    obtain ⟨-, b2, b3, b4⟩ := bits c
+    simp [unwrapRes, bind, Except.bind, Except.toOption, toM, b2, b3, b4, pure, Except.pure]
+
+theorem from_bytes_rst (d : List UInt8) :
+    (BV.Src.Ash.RstFrame.from_bytes d).toOption.map toM =
+      match BV.Ash.unwrap d with
+      | .error _ => none
+      | .ok (_, rest) => if rest.isEmpty then some .rst else none := by
+  simp only [BV.Src.Ash.RstFrame.from_bytes, unwrap_eq]
+  cases BV.Ash.unwrap d with
+  | error e => simp [unwrapRes, bind, Except.bind, Except.toOption]
+  | ok p =>
+    obtain ⟨c, rest⟩ := p
+    cases rest <;> simp [unwrapRes, bind, Except.bind, Except.toOption, toM, pure, Except.pure, throw, throwThe, MonadExceptOf.throw]
+
+theorem rstack_fields (rest : List UInt8) (mk : Nat → Nat → Frame) (mk' : UInt8 → UInt8 → BV.Ash.Frame)
+    (hmk : ∀ v c : UInt8, toM (mk v.toNat c.toNat) = mk' v c) :
+    ((do
+        if (decide (rest.length ≠ 2)) then throw (PyErr.raised "ParsingError")
+        else do
+          let b23 ← byteAt rest 0
+          if (decide (b23 ≠ 2)) then throw (PyErr.raised "ParsingError")
+          else do
+            let b24 ← byteAt rest 1
+            pure (mk b23 b24) : Except PyErr Frame).toOption.map toM) =
+      ((BV.Ash.rstackFields rest).map fun (v, code) => mk' v code).toOption := by
+  match rest with
+  | [] => simp [BV.Ash.rstackFields, Except.toOption, throw, throwThe, MonadExceptOf.throw, Except.map]
+  | [_] => simp [BV.Ash.rstackFields, Except.toOption, throw, throwThe, MonadExceptOf.throw, Except.map]
+  | _ :: _ :: _ :: _ => simp [BV.Ash.rstackFields, Except.toOption, throw, throwThe, MonadExceptOf.throw, Except.map]
+  | [v, c] =>
+    by_cases hv : v = 2
+    · subst hv
+      have := hmk 2 c
+      simp at this
+      simp [BV.Ash.rstackFields, Except.toOption, byteAt, bind, Except.bind, pure, Except.pure, Except.map, this]
+    · have : v.toNat ≠ 2 := fun h => hv (by
+        have := congrArg UInt8.ofNat h; simpa using this)
+      simp [BV.Ash.rstackFields, Except.toOption, byteAt, bind, Except.bind, hv, this, throw, throwThe, MonadExceptOf.throw, Except.map]
+
+theorem from_bytes_rstack (d : List UInt8) :
+    (BV.Src.Ash.RStackFrame.from_bytes d).toOption.map toM =
+      match BV.Ash.unwrap d with
+      | .error _ => none
+      | .ok (_, rest) => ((BV.Ash.rstackFields rest).map fun (v, code) => BV.Ash.Frame.rstack v code).toOption := by
+  simp only [BV.Src.Ash.RStackFrame.from_bytes, unwrap_eq]
+  cases BV.Ash.unwrap d with
+  | error e => simp [unwrapRes, bind, Except.bind, Except.toOption]
+  | ok p =>
+    obtain ⟨c, rest⟩ := p
+    have := rstack_fields rest Frame.RStackFrame BV.Ash.Frame.rstack (by intro v c; simp [toM])
+    simpa [unwrapRes, bind, Except.bind] using this
+
+theorem from_bytes_error (d : List UInt8) :
+    (BV.Src.Ash.ErrorFrame.from_bytes d).toOption.map toM =
+      match BV.Ash.unwrap d with
+      | .error _ => none
+      | .ok (_, rest) => ((BV.Ash.rstackFields rest).map fun (v, code) => BV.Ash.Frame.error v code).toOption := by
+  simp only [BV.Src.Ash.ErrorFrame.from_bytes, unwrap_eq]
+  cases BV.Ash.unwrap d with
+  | error e => simp [unwrapRes, bind, Except.bind, Except.toOption]
+  | ok p =>
+    obtain ⟨c, rest⟩ := p
+    have := rstack_fields rest Frame.ErrorFrame BV.Ash.Frame.error (by intro v c; simp [toM])
+    simpa [unwrapRes, bind, Except.bind] using this
+
+theorem parse_unroll (c0 : UInt8) (rest : List UInt8) :
+    BV.Src.Ash.parse_frame (c0 :: rest) =
+      if c0.toNat &&& 128 = 0 then BV.Src.Ash.DataFrame.from_bytes (c0 :: rest)
+      else if c0.toNat &&& 224 = 128 then BV.Src.Ash.AckFrame.from_bytes (c0 :: rest)
+      else if c0.toNat &&& 224 = 160 then BV.Src.Ash.NakFrame.from_bytes (c0 :: rest)
+      else if c0.toNat &&& 255 = 192 then BV.Src.Ash.RstFrame.from_bytes (c0 :: rest)
+      else if c0.toNat &&& 255 = 193 then BV.Src.Ash.RStackFrame.from_bytes (c0 :: rest)
+      else if c0.toNat &&& 255 = 194 then BV.Src.Ash.ErrorFrame.from_bytes (c0 :: rest)
+      else .error (.raised "ParsingError") := by
+  simp only [BV.Src.Ash.parse_frame, byteAt, List.getElem?_cons_zero, bind, Except.bind, forE,
+      BV.Src.Ash.parse_frame.loop1, FrameCls.MASK, FrameCls.MASK_VALUE, FrameCls.from_bytes, decide_eq_true_eq]
+  by_cases h1 : c0.toNat &&& 128 = 0
+  · simp only [h1, ↓reduceIte]; cases BV.Src.Ash.DataFrame.from_bytes (c0 :: rest) <;> rfl
+  by_cases h2 : c0.toNat &&& 224 = 128
+  · simp only [h1, h2, ↓reduceIte]; cases BV.Src.Ash.AckFrame.from_bytes (c0 :: rest) <;> rfl
+  by_cases h3 : c0.toNat &&& 224 = 160
+  · simp only [h1, h2, h3, ↓reduceIte]; cases BV.Src.Ash.NakFrame.from_bytes (c0 :: rest) <;> rfl
+  by_cases h4 : c0.toNat &&& 255 = 192
+  · simp only [h1, h2, h3, h4, ↓reduceIte]; cases BV.Src.Ash.RstFrame.from_bytes (c0 :: rest) <;> rfl
+  by_cases h5 : c0.toNat &&& 255 = 193
+  · simp only [h1, h2, h3, h4, h5, ↓reduceIte]; cases BV.Src.Ash.RStackFrame.from_bytes (c0 :: rest) <;> rfl
+  by_cases h6 : c0.toNat &&& 255 = 194
+  · simp only [h1, h2, h3, h4, h5, h6, ↓reduceIte]; cases BV.Src.Ash.ErrorFrame.from_bytes (c0 :: rest) <;> rfl
+  simp only [h1, h2, h3, h4, h5, h6, ↓reduceIte]
+  rfl
+
+/-- **`parse_frame` of the source = the model's `parse`** on every byte string: same frames accepted, same
+fields read, same frames rejected -/
+theorem parse_frame_eq (d : List UInt8) : parsed d = (BV.Ash.parse d).toOption := by
+  unfold parsed
+  cases d with
+  | nil => simp [BV.Src.Ash.parse_frame, BV.Ash.parse, byteAt, bind, Except.bind, Except.toOption]
+  | cons c0 rest =>
+    obtain ⟨m1, m2, m3, m4, m5, m6⟩ := masks c0
+    rw [parse_unroll]
+    simp only [BV.Ash.parse, BV.Ash.classify, m1, m2, m3, m4, m5, m6]
+    by_cases h1 : (c0 &&& dataMask == dataMaskValue) = true
+    · simp only [h1, Bool.false_eq_true, ↓reduceIte, from_bytes_data]
+      cases BV.Ash.unwrap (c0 :: rest) with
+      | error e => rfl
+      | ok p => obtain ⟨c, r⟩ := p; simp only []; split <;> simp [Except.toOption]
+    by_cases h2 : (c0 &&& ackMask == ackMaskValue) = true
+    · simp only [h1, h2, Bool.false_eq_true, ↓reduceIte, from_bytes_ack]
+      cases BV.Ash.unwrap (c0 :: rest) with
+      | error e => rfl
+      | ok p => obtain ⟨c, r⟩ := p; simp [Except.toOption]
+    by_cases h3 : (c0 &&& nakMask == nakMaskValue) = true
+    · simp only [h1, h2, h3, Bool.false_eq_true, ↓reduceIte, from_bytes_nak]
+      cases BV.Ash.unwrap (c0 :: rest) with
+      | error e => rfl
+      | ok p => obtain ⟨c, r⟩ := p; simp [Except.toOption]
+    by_cases h4 : (c0 &&& rstMask == rstMaskValue) = true
+    · simp only [h1, h2, h3, h4, Bool.false_eq_true, ↓reduceIte, from_bytes_rst]
+      cases BV.Ash.unwrap (c0 :: rest) with
+      | error e => rfl
+      | ok p => obtain ⟨c, r⟩ := p; simp only []; split <;> simp [Except.toOption]
+    by_cases h5 : (c0 &&& rstackMask == rstackMaskValue) = true
+    · simp only [h1, h2, h3, h4, h5, Bool.false_eq_true, ↓reduceIte, from_bytes_rstack]
+      cases BV.Ash.unwrap (c0 :: rest) with
+      | error e => rfl
+      | ok p => obtain ⟨c, r⟩ := p; rfl
+    by_cases h6 : (c0 &&& errorMask == errorMaskValue) = true
+    · simp only [h1, h2, h3, h4, h5, h6, Bool.false_eq_true, ↓reduceIte, from_bytes_error]
+      cases BV.Ash.unwrap (c0 :: rest) with
+      | error e => rfl
+      | ok p => obtain ⟨c, r⟩ := p; rfl
+    simp [h1, h2, h3, h4, h5, h6, Except.toOption]
 
 end BV.Proofs.Src.Ash
